@@ -55,9 +55,9 @@ Proof. reflexivity. Qed.
 Definition finish (io rq op : bool) (sn n : str) (num : N) (c : fcore) (lbl : plabel) (ty : ptype) (tn : str)
            (msgs : list dmsg) (imps : list str) : outcome pres :=
   if rq && op then Err "cannot be both required and optional"
-  else if io && op
-       then Err "optional oneof member"
-       else Ok (mkPres [mkField sn n num ty lbl (op && negb (plabel_eqb lbl LRepeated)) tn io] msgs (fc_enums c)
+  else if io && plabel_eqb lbl LRepeated
+       then Err "an array cannot be an option of a oneof"
+       else Ok (mkPres [mkField sn n num ty lbl (op && negb (plabel_eqb lbl LRepeated) && negb io) tn io] msgs (fc_enums c)
                        (imps ++ if rq then [imp_validate; imp_ext] else [])).
 
 Lemma cv_property_eq ev path io num n rq op f :
@@ -69,7 +69,7 @@ Lemma cv_property_eq ev path io num n rq op f :
                (imp_ext :: fc_imports c ++ if fc_validate c then [imp_validate] else []))
   | FMap it =>
       obind (cv_item ev path (camel n) it) (fun c =>
-        if io then Err "map entry outside its message" else
+        if io then Err "a map cannot be an option of a oneof" else
         finish io rq op (snake n) n num c LRepeated TMessage (map_name (snake n))
                (fc_msgs c ++ [DMsg (map_name (snake n)) MMapEntry [key_field; value_field c] [] []])
                (fc_imports c))
@@ -282,10 +282,10 @@ Proof. intros H a Ha. apply H. apply in_or_app. right. exact Ha. Qed.
 (* the property-level wrapper: what [finish] yields *)
 Lemma finish_inv io rq op sn n num c lbl ty tn msgs imps r :
   finish io rq op sn n num c lbl ty tn msgs imps = Ok r ->
-  pr_fields r = [mkField sn n num ty lbl (op && negb (plabel_eqb lbl LRepeated)) tn io] /\ pr_msgs r = msgs /\ pr_enums r = fc_enums c.
+  pr_fields r = [mkField sn n num ty lbl (op && negb (plabel_eqb lbl LRepeated) && negb io) tn io] /\ pr_msgs r = msgs /\ pr_enums r = fc_enums c.
 Proof.
   unfold finish. destruct (rq && op); [discriminate|].
-  destruct (io && _); [discriminate|]. intros H. inversion H. subst. cbn. auto.
+  destruct (io && plabel_eqb lbl LRepeated); [discriminate|]. intros H. inversion H. subst. cbn. auto.
 Qed.
 
 Theorem convert_refines :
@@ -402,7 +402,7 @@ Definition item_total (ev : env) (f : field) : Prop :=
 
 Lemma finish_total io rq op sn n num c lbl ty tn msgs imps :
   rq && op = false ->
-  (io = true -> op = false) ->
+  (io = true -> plabel_eqb lbl LRepeated = false) ->
   exists r, finish io rq op sn n num c lbl ty tn msgs imps = Ok r.
 Proof.
   intros H1 H2. unfold finish. rewrite H1. destruct io.
@@ -438,16 +438,15 @@ Proof.
     apply andb_true_iff in H. destruct H as [H Hw]. apply andb_true_iff in H. destruct H as [H Hio].
     apply andb_true_iff in H. destruct H as [_ Hro]. apply negb_true_iff in Hro.
     rewrite cv_property_eq.
-    assert (Hio' : io = true -> op = false /\ is_repeated f = false).
-    { intros ->. apply andb_true_iff in Hio. destruct Hio as [Hio _]. apply andb_true_iff in Hio.
-      destruct Hio as [Ha Hb]. apply negb_true_iff in Ha, Hb. auto. }
+    assert (Hio' : io = true -> is_repeated f = false).
+    { intros ->. apply andb_true_iff in Hio. destruct Hio as [Ha _]. apply negb_true_iff in Ha. exact Ha. }
     destruct f as [s|rf|nm ps|rf|nm ps|rf|e|it|it].
     1-7: destruct (IH Hw path (camel n)) as [c Hc]; rewrite Hc; cbn [obind];
-         apply finish_total; [exact Hro|intros Hi; destruct (Hio' Hi); auto].
+         apply finish_total; [exact Hro|intros Hi; reflexivity].
     + destruct (IHit Hw path (camel n)) as [c Hc]. rewrite Hc. cbn [obind].
-      apply finish_total; [exact Hro|]. intros Hi. destruct (Hio' Hi) as [Ho _]. exact Ho.
+      apply finish_total; [exact Hro|]. intros Hi. pose proof (Hio' Hi) as Hr. cbn in Hr. discriminate.
     + destruct (IHit Hw path (camel n)) as [c Hc]. rewrite Hc. cbn [obind].
-      destruct io; [destruct (Hio' eq_refl) as [_ Hr]; cbn in Hr; discriminate|].
+      destruct io; [pose proof (Hio' eq_refl) as Hr; cbn in Hr; discriminate|].
       apply finish_total; [exact Hro|]. intros Hi. discriminate.
 Qed.
 
